@@ -28,7 +28,7 @@ BASE = 'avx2-stats-ndebug-pause'            # the configuration the pinned test 
 DEBUG = 'avx2-stats-debug-pause'
 ALL_CFGS = ['%s-%s-%s-%s' % (a, b, c, d) for a in ('avx2', 'sse41') for b in ('stats', 'nostats') for c in ('ndebug', 'debug') for d in ('pause', 'empty')]
 
-CLANG = ['clang++-14', '-std=c++20', '-S', '-emit-llvm', '-O0', '-fno-discard-value-names', '-Xclang', '-disable-O0-optnone', '-fno-access-control',
+CLANG = ['clang++-14', '-std=c++20', '-S', '-emit-llvm', '-O0', '-fno-discard-value-names', '-Xclang', '-disable-O0-optnone',
          '-Wno-everything', '-I' + REPO]
 
 CACHE_DIR = os.environ.get('VERIF_CACHE_DIR', '/var/tmp/verif_cache')
@@ -130,7 +130,13 @@ def extract_ir(unit, cfg, scratch):
     if os.path.exists(out): return out
     os.makedirs(os.path.dirname(out), exist_ok=True)
     tmp = out + '.tmp%d' % os.getpid()
-    rc, so, se, dt = sh(CLANG + cfg_flags(cfg) + [unit_source(unit), '-o', tmp], timeout=600)
+    # a driver TU may ask for extra front-end flags on a line `// VERIF-UNIT-FLAGS: ...` (only -fno-access-control is used: wrappers that forward to
+    # private members; it is NOT applied to the other units, because access checks can take part in SFINAE / overload resolution)
+    uf = []
+    for l_ in open(unit_source(unit), errors='replace'):
+        m_ = re.match(r'//\s*VERIF-UNIT-FLAGS:\s*(.*)$', l_)
+        if m_: uf += m_.group(1).split()
+    rc, so, se, dt = sh(CLANG + uf + cfg_flags(cfg) + [unit_source(unit), '-o', tmp], timeout=600)
     if rc != 0:
         raise Undecided('clang failed on unit %s [%s]: %s' % (unit, cfg, se[-2000:]))
     os.replace(tmp, out)
